@@ -568,6 +568,9 @@ _EXTRA4 = {
 for _k, _t in _EXTRA4.items():
     PROPS[_k]["level_note"] = (PROPS[_k].get("level_note", "") + " " + _t).strip()
 FIX_COMMITS.append("9f411cc")
+FIX_COMMITS.append("fb1c469")
+PROPS["C14"]["level_note"] += (" One scenario in eight uses a sticky-growth generator (busy workers, a backlog that starts with a run of one key, a growth by two or more, quiet barriers); "
+                               "new clause for sticky routing at quiet barriers: no job whose key is in nobody's hands waits in the factory queue while a worker has nothing at all. Found and fixed F14 (fb1c469).")
 
 # C20 over TCP: exit-under-load and membership-during-set-up need a few hundred scenarios per hit
 for _r in PROPS["C20"]["runs"]:
